@@ -668,17 +668,21 @@ async fn wait_done(data: &Path, acts: &[Act], ids: &[Ids], snaps_before: u64, ru
     }
 }
 
-fn prepare_workspace(ws: &Path) {
-    std::fs::create_dir_all(ws.join("sub")).unwrap();
-    std::fs::write(ws.join("a.txt"), "alpha\nbeta\n").unwrap();
-    std::fs::write(ws.join("sub/one.txt"), "1\n").unwrap();
-    std::fs::write(ws.join("sub/two.txt"), "2\n").unwrap();
+fn prepare_workspace(ws: &Path) -> std::io::Result<()> {
+    std::fs::create_dir_all(ws.join("sub"))?;
+    std::fs::write(ws.join("a.txt"), "alpha\nbeta\n")?;
+    std::fs::write(ws.join("sub/one.txt"), "1\n")?;
+    std::fs::write(ws.join("sub/two.txt"), "2\n")?;
+    // the store needs room too: refuse to start a case on a (nearly) full disk
+    std::fs::write(ws.join(".probe"), vec![0u8; 1 << 20])?;
+    std::fs::remove_file(ws.join(".probe"))
 }
 
-async fn exec_case(c: &Case, root: &Path) -> Exec {
+/// Err = the harness could not set the case up (its own I/O, e.g. disk full): not a statement about rip
+async fn exec_case(c: &Case, root: &Path) -> Result<Exec, String> {
     let data = root.join("data");
     let ws = root.join("ws");
-    prepare_workspace(&ws);
+    prepare_workspace(&ws).map_err(|e| format!("workspace setup: {e}"))?;
     let mut providers: Vec<Option<ScriptedProvider>> = vec![];
     let mut urls: Vec<Option<String>> = vec![];
     let mut preds: Vec<Vec<Pred>> = vec![];
@@ -707,9 +711,9 @@ async fn exec_case(c: &Case, root: &Path) -> Exec {
     let mut hang = None;
     let thread;
     if c.engine {
-        let engine = ripd::SessionEngine::new(data.clone(), ws.clone(), None).expect("engine");
+        let engine = ripd::SessionEngine::new(data.clone(), ws.clone(), None).map_err(|e| format!("engine init: {e}"))?;
         let store = engine.continuities();
-        thread = store.ensure_default().expect("thread");
+        thread = store.ensure_default().map_err(|e| format!("ensure_default: {e}"))?;
         for (i, a) in c.acts.iter().enumerate() {
             let mut id = Ids::default();
             match a {
@@ -837,7 +841,7 @@ async fn exec_case(c: &Case, root: &Path) -> Exec {
     }
     let log = read_log(&data);
     drop(providers);
-    Exec { ids, preds, log, thread, hang }
+    Ok(Exec { ids, preds, log, thread, hang })
 }
 
 // ------------------------------------------------------------------ model terms
@@ -1128,7 +1132,7 @@ fn calibrate(rt: &tokio::runtime::Runtime) -> Calib {
     let sc = Scratch::new("c07cal");
     let acts: Vec<Act> = CALL_TOOLS.iter().map(|t| Act::Input { input: InputSpec::ToolEnv { tool: *t, tmo: 0 }, provider: None }).collect();
     let c = Case { engine: true, parallel: false, acts };
-    let ex = rt.block_on(exec_case(&c, sc.path()));
+    let ex = rt.block_on(exec_case(&c, sc.path())).expect("calibration store");
     let mut cal = Calib::new();
     for (t, id) in CALL_TOOLS.iter().zip(&ex.ids) {
         let sid = id.sid.clone().unwrap_or_default();
@@ -1256,7 +1260,14 @@ fn main() {
                 res.oracle_violations.push(OracleViolation { case_id: i as i64, what: "the run panicked".into(), class: "panic".into(), replay: cj });
                 continue;
             }
-            Ok(ex) => ex,
+            Ok(Err(e)) => {
+                res.bump("skipped(harness-io)");
+                if res.notes.len() < 20 {
+                    res.notes.push(format!("case {i} not run: {e}"));
+                }
+                continue;
+            }
+            Ok(Ok(ex)) => ex,
         };
         res.oracle_checks += 1;
         let mut bad = false;
